@@ -286,7 +286,7 @@ def check(case, rec):
                     # a caller-supplied colour cycle (documented plot_time_series keyword), shorter than / as long as / longer than
                     # the number of drawn series: colours are styling and must never decide which cyclepoints are drawn
                     pool = ['k', 'b', 'r', 'm', 'c', 'g', 'y']
-                    extra_kw['colors'] = pool[:max(1, min(len(pool), n_series + [-2, -1, 0, 1][case['colors'] % 4]))]
+                    extra_kw['colors'] = pool[:max(2, min(len(pool), n_series + [-2, -1, 0, 1][case['colors'] % 4]))]     # neurodsp itself cycles lists of two or more colours only
                 guarded(plot_cyclepoints_array, x, fs, plot_sig=sw[0], xlim=xlim, **{k: (None if v is None else v.copy()) for k, v in arrs.items()}, **extra_kw)
                 ax = plt.gcf().axes[0]
                 ml = marker_lines(ax)
